@@ -1,0 +1,26 @@
+//go:build verif
+// +build verif
+
+package mod_secure_link
+
+import (
+	"github.com/bfenetworks/bfe/bfe_basic"
+	"github.com/bfenetworks/bfe/bfe_http"
+)
+
+// VerifModule wraps one module instance.  For the out-of-tree verification harness.
+type VerifModule struct{ m *ModuleSecureLink }
+
+func VerifNew() *VerifModule { return &VerifModule{m: NewModuleSecureLink()} }
+
+// Handle builds the rule table from cf with NewData (as DataLoad does after decoding the file)
+// and runs validateHandler on req.
+func (v *VerifModule) Handle(cf *DataFile, req *bfe_basic.Request) (int, *bfe_http.Response, error) {
+	data, err := NewData(cf)
+	if err != nil {
+		return 0, nil, err
+	}
+	v.m.ruleTable.Update(data)
+	ret, resp := v.m.validateHandler(req)
+	return ret, resp, nil
+}
